@@ -48,6 +48,9 @@ IsCopy(e)    == e.kind \in {"copy", "copy-self"}
 
 SmallSizes == {"0", "1", "4095", "4096", "4097", "32767", "32768", "32769", "65535", "65536", "65537"}
 BigSizes   == {"5m-1", "5m", "5m+1"}
+\* bodies of several 64 KiB chunks, uploaded by many clients at once (the crowd stage: what a
+\* request decoder keeps between two reads must not be shared with another request's)
+CrowdSizes == {"262145", "786433"}
 KeyClasses == {"flat", "utf8", "space", "reserved", "deep", "seg255", "pctlit"}
 MetaClasses == {"none", "lower", "mixed"}       \* mixed: mixed-case names and an empty value
 HdrClasses  == {"none", "noce", "all"}          \* noce: all but Content-Encoding
@@ -137,7 +140,7 @@ HeavyMp == {Desc(e, s, k, b[1], b[2], b[3], pr, "-") :
 HeavyDescriptors == {d \in HeavyBig \cup HeavyMp : Legal(d)}
 
 IsDescriptor(d) ==
-    /\ d.enc \in Encodings /\ d.size \in SmallSizes \cup BigSizes /\ d.key \in KeyClasses
+    /\ d.enc \in Encodings /\ d.size \in SmallSizes \cup BigSizes \cup CrowdSizes /\ d.key \in KeyClasses
     /\ d.mc \in MetaClasses /\ d.hc \in HdrClasses /\ d.tc \in TagClasses /\ Legal(d)
 
 \* storage configurations and gateway assignments
